@@ -503,8 +503,32 @@ def parse_writer_loop(toks, k, b1):
     ret = cur.try_eat("( * $S ) = index + 1 ;", c) or cur.try_eat("* $S = index + 1 ;", c)
     cnts = [c["$c%d" % n] for n in range(1, 8)]
     arrs = [c["$a%d" % n] for n in range(1, 8)]
-    return "WRow %s %s %s %s %s %s %s" % (cs("@FN@"), cs(c["$P"]), clist([cs(x) for x in cnts]), clist([cs(x) for x in arrs]),
-                                        cs(free), cs(c["$T"]), cbool(bool(ret)))
+    made = creation_site(toks, cur.i, b1, c["$x"], c["$name"], c["$P"])
+    return "WRow %s %s %s %s %s %s %s %s" % (cs("@FN@"), cs(c["$P"]), clist([cs(x) for x in cnts]), clist([cs(x) for x in arrs]),
+                                           cs(free), cs(c["$T"]), cbool(bool(ret)), cs(made))
+
+
+def creation_site(toks, a, b, x, name, parent):
+    """how the rest of the function creates the database node of slot x: "slot" when it calls
+    cgi_new_node(<parent>->id, x->name | <name>, "<label>", &x->id, ...) or a cgi_write_* helper with (<parent>->id, x);
+    otherwise the offending text"""
+    v = vals(toks)
+    i = a
+    while i < b:
+        if toks[i][0] == "id" and v[i + 1] == "(" and (v[i] in ("cgi_new_node", "cgi_new_node_partial") or v[i].startswith("cgi_write_")):
+            args, nxt = split_args(toks, i + 1)
+            av = [vals(t) for t in args]
+            if v[i].startswith("cgi_write_"):
+                if len(av) >= 2 and av[1] == [x]:
+                    return "slot" if av[0] == [parent, "->", "id"] else "parent: " + " ".join(av[0])
+            elif len(av) >= 4 and (av[1] == [x, "->", "name"] or av[1] == [name]):
+                if av[0] != [parent, "->", "id"]:
+                    return "parent: " + " ".join(av[0])
+                return "slot" if av[3] == ["&", x, "->", "id"] else "id: " + " ".join(av[3])
+            i = nxt
+        else:
+            i += 1
+    return "no creation call found"
 
 
 def parse_writers(toks):
@@ -573,6 +597,44 @@ def parse_addr_tails(itoks):
     return rows
 
 
+# ----------------------------------------------------------------------------- node-context writers
+def parse_ctx_writers(toks):
+    """every `X = cgi_Y_address(CG_MODE_WRITE, ...)` in cgnslib.c: the first creation of the node X describes --
+    cgi_new_node(posit_id | <id>, X->name | <a name argument>, "<label>", &IDARG, ...) or cgi_write_*(posit_id, X) --
+    -> NRow fn resolver var how   (how = "slot" | "helper" | "id: <text>" | "none")"""
+    rows = []
+    v = vals(toks)
+    fns = functions(toks)
+    for fname, (b0, b1) in sorted(fns.items(), key=lambda kv: kv[1][0]):
+        i = b0
+        while i < b1:
+            if toks[i][0] == "id" and v[i].startswith("cgi_") and v[i].endswith("_address") and v[i + 1] == "(" \
+                    and v[i + 2] == "CG_MODE_WRITE" and v[i - 1] == "=" and toks[i - 2][0] == "id":
+                x = v[i - 2]
+                args, nxt = split_args(toks, i + 1)
+                names = [vals(t)[0] for t in args[1:] if len(t) == 1 and t[0][0] == "id"]
+                how = "none"
+                j = nxt
+                while j < b1:
+                    if toks[j][0] == "id" and v[j + 1] == "(" and (v[j] in ("cgi_new_node", "cgi_new_node_partial") or v[j].startswith("cgi_write_")):
+                        cargs, cn = split_args(toks, j + 1)
+                        av = [vals(t) for t in cargs]
+                        if v[j].startswith("cgi_write_"):
+                            if len(av) >= 2 and (av[1] == [x] or av[1] == ["*", x]):
+                                how = "helper"; break
+                        elif len(av) >= 4 and (av[1] == [x, "->", "name"] or (len(av[1]) == 1 and av[1][0] in names)):
+                            how = "slot" if av[3] == ["&", x, "->", "id"] else "id: " + " ".join(av[3])
+                            break
+                        j = cn
+                    else:
+                        j += 1
+                rows.append("NRow %s %s %s %s" % (cs(fname), cs(v[i]), cs(x), cs(how)))
+                i = nxt
+            else:
+                i += 1
+    return rows
+
+
 # ----------------------------------------------------------------------------- output
 def translate(repo):
     ltoks = load(repo, "cgnslib.c")
@@ -607,6 +669,8 @@ def translate(repo):
     out.append("Definition write_table : list wrow := [\n  %s\n]." % ";\n  ".join(parse_writers(ltoks)))
     out.append("")
     out.append("Definition addr_tails : list atail := [\n  %s\n]." % ";\n  ".join(parse_addr_tails(itoks)))
+    out.append("")
+    out.append("Definition ctx_writers : list nrow := [\n  %s\n]." % ";\n  ".join(parse_ctx_writers(ltoks)))
     out.append("")
     return "\n".join(out)
 
